@@ -14,10 +14,13 @@ import c02_build as B            # sc3.init + helpers
 import sc3.synth.ugens as ugs
 from sc3.synth import ugen as ugn
 from sc3.synth.synthdef import SynthDef
+from sc3.synth.envelope import Env
 import sc3.base.main as _main
 
 METHS = ('ar', 'kr', 'ir', 'dr', 'new')
-SIGNAL_NAMES = ('input', 'in0', 'in1', 'in_a', 'in_b', 'left', 'right', 'x', 'y', 'z', 'w', 'source', 'src', 'trig', 'reset')
+SIGNAL_NAMES = ('input', 'in0', 'in1', 'in_a', 'in_b', 'left', 'right', 'x', 'y', 'z', 'w', 'source', 'src', 'trig', 'reset',
+                'sig', 'signal', 'output', 'inputs', 'lst', 'input_list', 'chain', 'demand_ugens')
+LIST_NAMES = ('lst', 'input_list', 'inputs', 'demand_ugens', 'array', 'in_array', 'channels_array')
 BADS = {'nan': float('nan'), 'str': 'abc', 'none': None}
 
 
@@ -36,7 +39,15 @@ def base_args(cls, meth):
     for p in sig.parameters.values():
         if p.kind not in (p.POSITIONAL_OR_KEYWORD,):
             return None
-        if p.name in SIGNAL_NAMES and meth in ('ar', 'kr'):
+        if p.name in LIST_NAMES:
+            args.append(('siglist', p.name))
+        elif p.name in ('env', 'envelope'):
+            args.append(('val', p.name, Env.adsr()))
+        elif p.name in ('spec', 'specs', 'specifications_array_ref'):
+            args.append(('val', p.name, ([440, 550], [0.1, 0.2], [0, 0])))
+        elif p.name in ('weights',):
+            args.append(('val', p.name, [0.5, 0.5]))
+        elif p.name in SIGNAL_NAMES and meth in ('ar', 'kr'):
             args.append(('sig', p.name))
         elif p.default is not inspect.Parameter.empty:
             args.append(('val', p.name, p.default))
@@ -56,17 +67,31 @@ def build(cls, meth, args, subst=None):
                 vals.append(subst[1])
             elif a[0] == 'sig':
                 vals.append(ugs.DC.ar(0.25) if meth == 'ar' else ugs.DC.kr(0.25))
+            elif a[0] == 'siglist':
+                vals.append([ugs.DC.ar(0.25), ugs.DC.ar(0.5)] if meth == 'ar' else [ugs.DC.kr(0.25), ugs.DC.kr(0.5)])
             else:
                 vals.append(a[2])
+        if issubclass(cls, B.iou.AbstractControl) and hasattr(cls, 'add_name'):
+            cls.add_name('c0')                  # a control is registered under a name before it is created
         r = getattr(cls, meth)(*vals)
         outs = [x for x in B.flat(r) if isinstance(x, ugn.UGen)] if r is not None else []
+        # a unit that DECLARES no outputs (its class overrides _num_outputs: SendPeakRMS, SendReply, ...) is not a
+        # signal; a multi-output unit that ended up without channels is wired like any other value
+        outs = [x for x in outs if not (x._num_outputs() == 0 and '_num_outputs' in type(x).__dict__)]
         for x in outs[:2]:
             rate = B.rate_of(x)
             if rate == 'audio':
                 ugs.Out.ar(0, x)
             elif rate == 'control':
                 ugs.Out.kr(0, x)
-    return SynthDef('bs', graph)
+    sd = SynthDef('bs', graph)
+    # the hand-registered control 'c0' as the live control unit describes it (add_name's own record keeps
+    # neither the rate nor, for some classes, the default)
+    for u in sd._children:
+        if isinstance(u, B.iou.AbstractControl):
+            B.LAST_REC['c0'] = [u._special_index, B.RATE.get(u.rate, -1), [B.f32word(v) for v in u.values]]
+            break
+    return sd
 
 
 def verdict(sd, b):
@@ -91,6 +116,8 @@ def main():
     stats = {'classes': 0, 'constructors': 0, 'baseline-built': 0, 'baseline-failed': 0, 'substitutions': 0,
              'raised': 0, 'accepted-harmless': 0}
     bad = []
+    built = []
+    failed = []
     names = sorted(ugs.installed_ugens)
     for ci, name in enumerate(names):
         if ci % nshards != shard:
@@ -104,14 +131,36 @@ def main():
             if args is None:
                 continue
             stats['constructors'] += 1
-            try:
-                sd = build(cls, meth, args)
-                B.take_bytes(sd)
-            except BaseException:
-                _main.main._current_synthdef = None
+            sd = None
+            err = None
+            variants_ = [args]
+            for nsig in (1, 2):          # fallbacks: the first one / two arguments as signals of the unit's rate
+                if meth in ('ar', 'kr') and len(args) >= nsig:
+                    variants_.append([('sig', a[1]) if j < nsig and a[0] == 'val' else a for j, a in enumerate(args)])
+            if args:
+                variants_.append([('siglist', args[0][1])] + list(args[1:]))
+            for cand in variants_:
+                try:
+                    B.LAST_REC.clear()
+                    sd = build(cls, meth, cand)
+                    B.take_bytes(sd)
+                    args = cand
+                    break
+                except BaseException as e:
+                    _main.main._current_synthdef = None
+                    sd = None
+                    err = err or e
+            if sd is None:
                 stats['baseline-failed'] += 1
+                failed.append('%s.%s: %s' % (name, meth, (type(err).__name__ + ' ' + str(err))[:80]))
                 continue
             stats['baseline-built'] += 1
+            if req.get('describe', True):
+                # the definition around this constructor, for the byte-level checks (model parser / writer,
+                # independent reader, the library's reader): every installed class is emitted at least once
+                r = B.describe_sd(B.new_result(), sd, None, probe_cache=False)
+                r['ctor'] = '%s.%s' % (name, meth)
+                built.append(r)
             for i, a in enumerate(args):
                 if a[0] == 'val' and (isinstance(a[2], bool) or not isinstance(a[2], (int, float))):
                     continue
@@ -150,7 +199,7 @@ def main():
                     bad.append({'cls': name, 'meth': meth, 'arg': a[1], 'kind': kind, 'what': why, 'bytes': b.hex(),
                                 'checker': getattr(getattr(cls, '_check_inputs', None), '__qualname__', '?'),
                                 'python': "SynthDef('bs', lambda: %s).as_bytes()" % call})
-    json.dump({'stats': stats, 'bad': bad}, open(sys.argv[2], 'w'))
+    json.dump({'stats': stats, 'bad': bad, 'built': built, 'failed': failed}, open(sys.argv[2], 'w'))
 
 
 main()
